@@ -1,26 +1,52 @@
-"""Helper for sweep-style checks (one compact event per case, TLC in continue mode)."""
+"""Helper for sweep-style checks (one compact event per case, TLC in continue mode).
+The trace is cut at `reset` events into chunks validated by parallel TLC instances."""
 import json, os, collections
+import concurrent.futures as cf
 import vlib
 from vlib import log
 
 
-def validate_sweep(v, wd, module, tp, focus, tag, keyfn, ctx=None, timeout=3000):
-    """TLC validates the whole trace in continue mode; rejected cases are grouped by keyfn(event, run name)."""
-    r = vlib.tlc_trace(module, tp, os.path.join(wd, f"{tag}.tlc.out"), focus=focus, cont=True, timeout=timeout)
-    if not r["accepted"]:
-        raise vlib.ToolError(f"{module} did not consume the trace {tp}: {r}")
+def validate_sweep(v, wd, module, tp, focus, tag, keyfn, ctx=None, timeout=3000, jobs=6):
     lines = open(tp).read().splitlines()
-    v.add(trace_events=r["events"])
+    starts = [i for i, ln in enumerate(lines) if '"ev":"reset"' in ln[:60] or ln.startswith('{"ev":"reset"')]
+    if not starts or starts[0] != 0:
+        starts = [0] + starts
+    # group runs into at most `jobs` chunks of similar size
+    target = max(1, len(lines) // jobs)
+    chunks, cur_start = [], 0
+    for s in starts[1:]:
+        if s - cur_start >= target:
+            chunks.append((cur_start, s)); cur_start = s
+    chunks.append((cur_start, len(lines)))
+
+    def work(ci):
+        a, b = chunks[ci]
+        cp = f"{tp}.chunk{ci}"
+        with open(cp, "w") as f:
+            f.write("\n".join(lines[a:b]) + "\n")
+        r = vlib.tlc_trace(module, cp, os.path.join(wd, f"{tag}.{ci}.tlc.out"), focus=focus, cont=True, timeout=timeout)
+        os.remove(cp)
+        return a, r
+
+    with cf.ThreadPoolExecutor(max_workers=jobs) as ex:
+        results = list(ex.map(work, range(len(chunks))))
+    viol, events = [], 0
+    for a, r in results:
+        if not r["accepted"]:
+            raise vlib.ToolError(f"{module} did not consume the trace {tp} (chunk at line {a}): {r}")
+        events += r["events"]
+        viol += [(at + a, t) for at, t in r["viol"]]
+    v.add(trace_events=events)
     groups = collections.OrderedDict()
-    for at, t in r["viol"]:
+    for at, t in viol:
         e = json.loads(lines[at - 1])
         name = "?"
         for i in range(at - 1, -1, -1):
-            if '"ev":"reset"' in lines[i]:
+            if '"ev":"reset"' in lines[i][:60]:
                 name = json.loads(lines[i]).get("name", "?"); break
         groups.setdefault((t, name, keyfn(e)), []).append(e)
     for (t, name, key), evs in groups.items():
         rp = os.path.join(wd, "replay", f"{tag}_{name}_{key}.json".replace("/", "_"))
         json.dump({"context": ctx, "cases": evs[:3]}, open(rp, "w"))
         v.violation(f"{module}:{t}@{name}:{key}", rp, f"({len(evs)} cases)")
-    return r, lines
+    return {"events": events, "viol": viol, "accepted": True}, lines
